@@ -402,9 +402,26 @@ func (f *Fam) genTx1(r *rand.Rand, s *Snapshot) string {
 		// the sender is mostly the address the access-control list names for this key (ownership is handed over per key)
 		var curACL govTypes.ACL
 		govTypes.ModuleCdc.UnmarshalJSON([]byte(s.Params["gov/acl"]), &curACL)
+		// a parameter the list has lost its entry for belongs to nobody: every other time such a key is the target, and
+		// the sender is then mostly the one who would be the obvious stand-in, the owner of the list itself
+		var unlisted []string
+		for _, n := range AllParamNames() {
+			if curACL.GetOwner(n) == nil {
+				unlisted = append(unlisted, n)
+			}
+		}
+		if len(unlisted) > 0 && r.Intn(2) == 0 {
+			key = unlisted[r.Intn(len(unlisted))]
+		}
 		if o := curACL.GetOwner(key); o != nil && r.Intn(4) != 0 {
 			if i, ok := keyByAddr[hx(o)]; ok {
 				ki, addr, signer = i, hx(o), i
+			}
+		} else if o == nil && r.Intn(4) != 0 {
+			if lo := curACL.GetOwner("gov/acl"); lo != nil {
+				if i, ok := keyByAddr[hx(lo)]; ok {
+					ki, addr, signer = i, hx(lo), i
+				}
 			}
 		}
 		val := ""
@@ -475,6 +492,18 @@ func (f *Fam) genTx1(r *rand.Rand, s *Snapshot) string {
 		}
 	default:
 		kind = "upgrade"
+		{
+			// when nobody owns the upgrade plan any more, the owner of the list tries
+			var curACL govTypes.ACL
+			govTypes.ModuleCdc.UnmarshalJSON([]byte(s.Params["gov/acl"]), &curACL)
+			if curACL.GetOwner("gov/upgrade") == nil && r.Intn(3) != 0 {
+				if lo := curACL.GetOwner("gov/acl"); lo != nil {
+					if i, ok := keyByAddr[hx(lo)]; ok {
+						ki, addr, signer = i, hx(lo), i
+					}
+				}
+			}
+		}
 		// an upgrade height the chain will not reach: at that height the gov module's BeginBlock stops the process
 		// for the upgrade (by design), which is not a behaviour the line protocol can observe
 		fields = fmt.Sprintf("from=%s h=%d ver=%s", addr, pick(r, 0, 1000000, 5000000), []string{"1.0", "2.0"}[r.Intn(2)])
